@@ -257,3 +257,11 @@ impl Exchange {
         Ok(s_2 == sa)
     }
 }
+
+#[cfg(gm_rs_verif)]
+impl Exchange {
+    /// verification builds only: the derived key
+    pub fn verif_key(&self) -> Option<Vec<u8>> {
+        self.k.clone()
+    }
+}
